@@ -435,7 +435,10 @@ fn codec_tags(rng: &mut Rng, n_random: usize) -> Vec<(String, Vec<u8>, Option<u1
     for _ in 0..n_random { let c = rng.next() >> (32 + rng.below(32)); if c != MSGPACK { t.push((format!("random 0x{c:x}"), varint(c), Some(c as u128))); } }
     // numbers beyond u32 whose low 32 bits are the msgpack codec: not the msgpack codec
     for hi in [1u64, 2, 7] { let c = (hi << 32) | MSGPACK; t.push((format!("beyond-u32 0x{c:x}"), varint(c), Some(c as u128))); }
-    t.push(("beyond-u32 random".into(), varint((rng.next() | (1 << 40)) & 0x7_ffff_ffff), None));
+    { let c = (rng.next() | (1 << 32)) & 0x7_ffff_ffff; t.push((format!("beyond-u32 random 0x{c:x}"), varint(c), Some(c as u128))); }
+    // the same beyond five varint bytes (6..10 bytes): these must be refused (they are NOT covered by the known finding about the 5th byte)
+    for hi in [8u64, 0x2a, 1 << 17, 1 << 31] { let c = (hi << 32) | MSGPACK; t.push((format!("wide 0x{c:x}"), varint(c), Some(c as u128))); }
+    { let c = ((rng.next() | (1 << 63)) & !0xffff_ffffu64) | MSGPACK; t.push((format!("wide random 0x{c:x}"), varint(c), Some(c as u128))); }
     t.push(("non-minimal msgpack tag".into(), vec![0x81, 0x84, 0x00], None));
     t.push(("overlong msgpack tag".into(), vec![0x81, 0x84, 0x80, 0x80, 0x80, 0x00], None));
     t.push(("truncated tag".into(), vec![0x81], None));
@@ -533,7 +536,7 @@ fn section_requests(cx: &mut Cx, rng: &mut Rng, n_maps: usize, shapes_per_map: u
             cx.rep.stat("retagged_requests");
             let got = cx.cmp_dec_requests(&d, "retagged");
             if got.is_some() {
-                let beyond = num.map(|n| n > u32::MAX as u128).unwrap_or(what.starts_with("beyond"));
+                let beyond = num.map(|n| n > u32::MAX as u128 && n < (1u128 << 35)).unwrap_or(false);
                 let mut f = json!({"why": format!("call requests tagged with another codec ({what}) were decoded instead of rejected"), "input": {"hex": hex(&d), "tag": hex(tagb)}});
                 if beyond { f["finding_key"] = json!("multiformat-codec-varint-beyond-u32-truncated"); }
                 ofail(cx.rep, f);
@@ -602,7 +605,7 @@ fn section_results(cx: &mut Cx, rng: &mut Rng, n_maps: usize, shapes_per_map: us
             cx.rep.stat("retagged_results");
             let got = cx.cmp_dec_results(&d, "retagged");
             if got.is_some() {
-                let beyond = num.map(|n| n > u32::MAX as u128).unwrap_or(what.starts_with("beyond"));
+                let beyond = num.map(|n| n > u32::MAX as u128 && n < (1u128 << 35)).unwrap_or(false);
                 let mut f = json!({"why": format!("call results tagged with another codec ({what}) were decoded instead of rejected"), "input": {"hex": hex(&d), "tag": hex(tagb)}});
                 if beyond { f["finding_key"] = json!("multiformat-codec-varint-beyond-u32-truncated"); }
                 ofail(cx.rep, f);
